@@ -361,7 +361,11 @@ func writeEvidence(vdir string, rep *checkReport) {
 		"SMT solvers z3 4.8.12 / z3 5.1.0 / cvc5 1.0 (thorough tier: two must agree)",
 		"machine integers modelled as mathematical integers; every signed + - * carries an explicit no-overflow obligation",
 	}, trusted...)
-	var assumptions []string
+	assumptions := []string{
+		"callees without contract and without body model (stdlib) are assumed to terminate, not to panic and to write nothing visible, unless listed otherwise in trusted_base",
+		"finiteness and acyclicity of inputs; stack depth and memory exhaustion are out of scope",
+		"functions not listed in functions_under_contract are not verified by this check",
+	}
 	for k := range rep.assumptions {
 		assumptions = append(assumptions, k)
 	}
